@@ -23,7 +23,7 @@ pub fn get() -> FunctionDefinitions {
                     if num2 == 0.0 {
                         None
                     } else {
-                        Some((num1 / num2).into())
+                        JsonValue::from_finite(num1 / num2)
                     }
                 } else {
                     None
